@@ -23,7 +23,7 @@ from common import hexf, unhex, close, TOL, run_driver
 import scen_c18 as sc
 
 META = {
-    'text': 'Theorems (Lean 4; pure data movement, hence generic in the value type: any array contents incl. NaN, any number of particles, compounds, tracers, rows): for the transcribed writers/readers of single_bubble_model, bent_plume_model, stratified_plume_model, dispersed_phases.save/load_particle_to/from_nc_file and ambient.create_nc_db/fill_nc_db/get_nc_data, load(save x) returns every solution array (t,y / t,q / zi,yi,zo,yo), every model parameter and every STORED particle-definition field of x exactly (load_save_id_partial = particles_load_save_partial, sbm/bpm_file/spm_load_save_partial, *_arrays_exact, profile_load_save; bpm_load_save_partial is the whole load_sim, equal up to the LagElement reset of integrate,t,x,y,z, an explicit exclusion), and save(load(save x)) = save x (particles/bpm_file/spm_resave_fixpoint; bpm_resave_after_load). The full statement is FALSE for the code as written; the negations are proved with concrete witnesses: delta, lag_time, the k_bio/t_bio/C_pen/C_pen_T entries of user data, k_bio/t_bio/fp_type of insoluble particles, a particle\'s own composition and cj with other than one tracer are not stored (two different definitions give one file; load_save_id_false), save_sim raises without tracers, re-saving a reloaded single-particle model raises (sbm_resave_raises). PIPELINES of every run: (1) particle lists of the three classes (random + every run: lists mixing soluble particles with/without user data, differing fp_type/delta/delta_groups/sigma per particle, reordered / shorter compositions, new compound names): save, file vs model, load, compare, re-save, re-load; (2) profile files: write, file vs model, read back, interpolate; (3) simulations sbm x {soluble, inert}, bpm x {soluble tracked, inert with tracers, mixed, one without tracers}, spm x {soluble, inert, mixed}: save, file vs model, load into a new object, every array bit for bit and every definition field, RE-SAVE and RE-LOAD (reached by every one of them: coverage obligations; a raise with the exact signature of a recorded defect is reported and then bypassed — cj=[0.] for no tracers, float K_T0 for the reloaded single-particle model — so that the later stages still run), text export, re-attached profile, load with the profile file absent.',
+    'text': 'Theorems (Lean 4; pure data movement, hence generic in the value type: any array contents incl. NaN, any number of particles, compounds, tracers, rows): for the transcribed writers/readers of single_bubble_model, bent_plume_model, stratified_plume_model, dispersed_phases.save/load_particle_to/from_nc_file and ambient.create_nc_db/fill_nc_db/get_nc_data, load(save x) returns every solution array (t,y / t,q / zi,yi,zo,yo), every model parameter and every STORED particle-definition field of x exactly (load_save_id_partial = particles_load_save_partial, sbm/bpm_file/spm_load_save_partial, *_arrays_exact, profile_load_save; bpm_load_save_partial is the whole load_sim, equal up to the LagElement reset of integrate,t,x,y,z, an explicit exclusion), and save(load(save x)) = save x (particles/bpm_file/spm_resave_fixpoint; bpm_resave_after_load). The full statement is FALSE for the code as written; the negations are proved with concrete witnesses: delta, lag_time, the k_bio/t_bio/C_pen/C_pen_T entries of user data, k_bio/t_bio/fp_type of insoluble particles, a particle\'s own composition and cj with other than one tracer are not stored (two different definitions give one file; load_save_id_false), save_sim raises without tracers, re-saving a reloaded single-particle model raises (sbm_resave_raises). PIPELINES of every run: (1) particle lists of the three classes (random + every run: lists mixing soluble particles with/without user data, differing fp_type/delta/delta_groups/sigma per particle, reordered / shorter compositions, new compound names): save, file vs model, load, compare, re-save, re-load; (2) profile files: write, file vs model, read back, interpolate; (2b) casts to which 1-3 variables (chemistry, currents, tracer) are APPENDED from data covering only part of the depth range (top / bottom / both ends missing, beyond the cast, 2-20 samples) through Profile.append and through fill_nc_db: written, closed, read back (netCDF4.Dataset and file name) and compared with the in-memory profile for every variable inside, at the ends of and outside the sampled range (T,S,P bit for bit; appended columns to 1e-12: two separately rounded evaluations of one interpolant), and re-attached by load_sim of a simulation that used it (to the 1 % default coarsening); floor >= 5 casts and all four coverage modes per run; (3) simulations sbm x {soluble, inert}, bpm x {soluble tracked, inert with tracers, mixed, one without tracers}, spm x {soluble, inert, mixed}: save, file vs model, load into a new object, every array bit for bit and every definition field, RE-SAVE and RE-LOAD (reached by every one of them: coverage obligations; a raise with the exact signature of a recorded defect is reported and then bypassed — cj=[0.] for no tracers, float K_T0 for the reloaded single-particle model — so that the later stages still run), text export, re-attached profile, load with the profile file absent.',
     'note': 'Trusted: Lean kernel + 3 standard axioms; my transcription of the writers/readers (tied on every run by comparing the real netCDF file — names, order, dtypes, dimensions, attributes, written cells, values — with the model\'s save, and the real load_sim / loader with the model\'s load). NOT modelled, assumed by contract: netCDF4/xarray store and return arrays and attributes unchanged (f8/i4 cells, fill value for unwritten cells, numpy broadcasting of a length-1 source into a slice); " ".join/str.split are inverse on whitespace-free names; numpy.savetxt/loadtxt (%.18e round-trips a double; checked by reading the text back). The values LagElement.update gives integrate,t,x,y,z of a reloaded bent-plume particle are an INPUT of the model (taken from the real reloaded object): that the end-of-simulation state in the file is discarded is proved (bpm_state_reset_on_load), recorded in the histogram and not counted as a violation (state, not a definition field). The profile theorem covers the first fill of an empty data base; the interpolating re-fill branch of fill_nc_db, the Profile constructor and the re-attachment of the profile on load are sampled only (bit-for-bit). The delta_groups theorem carries the guard "no row sums to zero" (FluidWF.nozero): that loss is found on the real code only. Known-finding keys are emitted only for the documented signature (direction of the value loss; exception type + innermost tamoc frame + source line + triggering condition); anything else gets its own key. The only arithmetic on the path (re-normalisation of delta_groups by the FluidMixture constructor) is compared at 1e-15 (real vs real) / 1e-11 (model vs real).',
     'technique': 'Lean 4 proof about a hand model of the (de)serialisers + file-level differential execution against the real code',
 }
@@ -970,6 +970,105 @@ def check_profile(ctx, job, tmp, idx, ps):
     return path, p_file
 
 
+APPEND_TOL = 1e-12      # appended columns: two separately rounded evaluations of the same linear interpolant (see below)
+REATTACH_TOL = 0.03     # of max|v|: load_sim re-attaches the profile with the default 1 % coarsening (err=0.01)
+
+
+def check_profile_append(ctx, tmp, idx, ps, mode, route, with_sim):
+    """a cast written with create_nc_db/fill_nc_db, then 1-3 variables APPENDED from data that cover only part of the
+    depth range — through Profile.append on the nc-backed profile or through fill_nc_db directly — closed and read back.
+    The in-memory profile (BaseProfile.append holds the end values constant) and the read-back one must interpolate
+    alike for EVERY variable at depths inside, at the ends of and outside the appended data's range.
+    Precision, determined on the unchanged tree: temperature, salinity, pressure bit for bit (the file stores f8);
+    an appended column to 1e-12 relative — the file holds fill_nc_db's interp1d evaluation on the cast's depths, the
+    memory holds xr_add_data_from_numpy's evaluation of the same interpolant: each is rounded separately, observed
+    difference <= 4e-16 relative in 17 of 40 casts, 0 in the others (both built with err=0: no coarsening)."""
+    from netCDF4 import Dataset
+    from tamoc import ambient, single_bubble_model, dbm
+    path = os.path.join(tmp, 'app%d.nc' % idx)
+    adds = sc.append_specs(ctx.rng, ps['H'], mode)
+    case = {'profile': sc.jsonable(ps), 'mode': mode, 'route': route, 'appended': sc.jsonable(adds)}
+    with sc.quiet():
+        nc, data, nms, units, comments = sc.write_profile(ps, path)
+        mem = ambient.Profile(nc, chem_names='all', err=0.)
+        for a in adds:
+            tab = np.array(a['table'], dtype=float)
+            cm = ['appended'] * len(a['names'])
+            if route == 'Profile.append':
+                mem.append(tab, list(a['names']), list(a['units']), cm, 0)
+            else:
+                mem.nc = ambient.fill_nc_db(mem.nc, tab, list(a['names']), list(a['units']), cm, 0)
+                ambient.BaseProfile.append(mem, tab, list(a['names']), list(a['units']), cm, 0)
+        mem.close_nc()
+        back = ambient.Profile(Dataset(path), chem_names='all', err=0.)
+        back.close_nc()
+        back2 = ambient.Profile(path, chem_names='all', err=0.)
+    base = [n for n in nms[1:]]
+    new = [n for a in adds for n in a['names'][1:]]
+    q = base + [n for n in new if n not in base]
+    r = np.random.default_rng(ps['zseed'] + 11)
+    pts = [r.uniform(-30., ps['H'] + 40., 150), data[:, 0], [0., ps['H'], mem.z_min, mem.z_max]]
+    for a in adds:
+        z = np.array(a['table'])[:, 0]
+        lo, hi = a['range']
+        pts += [z, [lo, hi, np.nextafter(lo, -1e9), np.nextafter(lo, 1e9), np.nextafter(hi, -1e9), np.nextafter(hi, 1e9)],
+                r.uniform(lo, hi, 30), r.uniform(min(lo, 0.) - 20., lo, 15), r.uniform(hi, max(hi, ps['H']) + 20., 15)]
+    zz = np.concatenate([np.asarray(x, dtype=float) for x in pts])
+    A = mem.get_values(zz, q)
+    ctx.evaluations += A.size
+    ctx.count('appended profile: %s, %s' % (mode, route))
+    bad = False
+    for tag, prf in (('netCDF4.Dataset', back), ('file name (xarray)', back2)):
+        if sorted(prf.f_names) != sorted(mem.f_names):
+            ctx.violation('profile-append-variables-differ', 'a profile with appended variables read back (%s) has other variables' % tag,
+                          dict(case, written=list(mem.f_names), read_back=list(prf.f_names)))
+            bad = True
+            continue
+        Bv = prf.get_values(zz, q)
+        for j, nme in enumerate(q):
+            if nme in new:
+                ok = all(close(float(x), float(y), APPEND_TOL, 1e-300) for x, y in zip(A[:, j], Bv[:, j]))
+            else:
+                ok = same(A[:, j], Bv[:, j])
+            if not ok:
+                k = int(np.nanargmax(np.abs(A[:, j] - Bv[:, j])))
+                lo_hi = next((a['range'] for a in adds if nme in a['names']), None)
+                ctx.violation('profile-append-readback-differs',
+                              'a profile with data appended on part of the depth range, written to netCDF and read back (%s), does not '
+                              'interpolate identically: %s at z = %.6g m written %.9g read back %.9g' % (tag, nme, zz[k], A[k, j], Bv[k, j]),
+                              dict(case, variable=nme, z=float(zz[k]), written=float(A[k, j]), read_back=float(Bv[k, j]),
+                                   sampled_range=lo_hi))
+                bad = True
+                break
+    if with_sim and not bad:
+        # the profile load_sim re-attaches (profile_from_model_savefile: default err = 0.01) to a simulation that used it
+        sbm = single_bubble_model.Model(mem)
+        with sc.quiet():
+            sbm.simulate(dbm.InsolubleParticle(False, False, rho_p=2500.), np.array([0., 0., 0.8 * ps['H']]), 0.002, 1., delta_t=20.)
+        fs = os.path.join(tmp, 'app%d_sbm.nc' % idx)
+        with sc.quiet():
+            sbm.save_sim(fs, os.path.basename(path), 'C18 appended profile')
+            m2 = single_bubble_model.Model(simfile=fs)
+        ctx.count('appended profile re-attached by load_sim')
+        if m2.profile is None:
+            ctx.violation('profile-reattach-differs', 'load_sim did not re-attach the profile with appended variables', case)
+        else:
+            Bv = m2.profile.get_values(zz, q)
+            for j, nme in enumerate(q):
+                tol = REATTACH_TOL * float(np.max(np.abs(A[:, j])))
+                dev = float(np.max(np.abs(A[:, j] - Bv[:, j])))
+                if not dev <= tol:
+                    k = int(np.argmax(np.abs(A[:, j] - Bv[:, j])))
+                    ctx.violation('profile-reattach-differs',
+                                  'the profile load_sim re-attaches does not interpolate like the one the simulation used: %s at z = %.6g m '
+                                  'used %.9g re-attached %.9g (tolerance: %g of max|v|, the default coarsening)' % (nme, zz[k], A[k, j], Bv[k, j], REATTACH_TOL),
+                                  dict(case, variable=nme, z=float(zz[k]), used=float(A[k, j]), reattached=float(Bv[k, j])))
+                    break
+        os.remove(fs)
+    os.remove(path)
+    return not bad
+
+
 def farfield_pairs(m, m2):
     out = []
     for i, (p, q) in enumerate(zip(m.particles, m2.particles)):
@@ -1246,6 +1345,24 @@ def _run(ctx, lean_ok, tmp):
         except Exception as e:
             _viol(ctx, 'profile-readback-raises', 'writing a profile with create_nc_db/fill_nc_db and reading it back raises %s' % type(e).__name__,
                           {'error': '%s: %s' % (type(e).__name__, e), 'trace': traceback.format_exc()[-600:], 'profile': sc.jsonable(ps)})
+    # ---- B'. casts with variables appended from data covering only part of the depth range -------------
+    napp = 0
+    modes = list(sc.APPEND_MODES)
+    for i in range(ctx.n(8, 60)):
+        ps = sc.profile_spec(rng, current=0., chems=rng.choice([(), ('oxygen',)]) if i % 3 == 2 else ())
+        mode = modes[i % len(modes)]
+        route = ('Profile.append', 'fill_nc_db')[(i // len(modes) + i) % 2]
+        try:
+            check_profile_append(ctx, tmp, i, ps, mode, route, with_sim=(i < 2 or i % 10 == 0))
+            napp += 1
+            ctx.nontrivial.add(('profile-append', mode, route, ps['n'], ps['irregular']))
+        except Exception as e:
+            report_raise(ctx, e, 'profile-append', 'profile', {}, 'cast with appended variables (%s, %s)' % (mode, route), {'profile': ps})
+    ctx.oblige('floor: at least 5 casts with variables appended on part of the depth range were written, read back and compared (%d)' % napp,
+               napp >= 5, '%d' % napp)
+    for mode in ('top-missing', 'bottom-missing', 'both-missing', 'beyond'):
+        ctx.oblige('coverage: appended data with %s compared' % mode,
+                   any(k.startswith('appended profile: %s,' % mode) for k in ctx.hist), 'not generated')
     # ---- C. real simulations ---------------------------------------------------------------------
     mk = {'sbm': sc.sbm_spec, 'bpm': sc.bpm_spec, 'spm': sc.spm_spec}
     done = {}
